@@ -534,8 +534,18 @@ func (i *Inst) dumpHookLog() {
 		if e.Pt == "gw.enter" && !e.Bool(1) {
 			gen[e.Tun]++
 		}
+		usr, nreg := "?", -1
+		switch {
+		case e.Pt == "gw.enter":
+			usr = e.Str(2)
+		case e.User != nil:
+			usr = *e.User
+		}
+		if e.NReg != nil {
+			nreg = *e.NReg
+		}
 		enc(map[string]interface{}{"ev": "hk", "pt": e.Pt, "u": fmt.Sprintf("%s#%d", e.Tun, gen[e.Tun]), "cid": e.Cid, "role": e.Role, "seq": e.Seq,
-			"found": e.Pt == "gw.enter" && e.Bool(1), "ok": e.Pt == "proc.dialed" && e.Bool(1), "pan": e.Panicking, "t": recvType(e)})
+			"found": e.Pt == "gw.enter" && e.Bool(1), "ok": e.Pt == "proc.dialed" && e.Bool(1), "pan": e.Panicking, "t": recvType(e), "usr": usr, "nreg": nreg})
 	}
 }
 
